@@ -1,9 +1,12 @@
 mod child;
 mod findings;
+mod alphabet;
 mod guard;
 mod props;
+mod refstf;
 mod refvm;
 mod report;
+mod stf;
 mod vmrun;
 mod world;
 
@@ -80,6 +83,11 @@ fn main() {
         std::process::exit(if n > 0 { 1 } else { 0 });
     }
     match id.as_str() {
+        "C01" => props::c01::run(&run),
+        "C02" => props::c02::run(&run),
+        "C15" => props::c15::run(&run),
+        "C16" => props::c16::run(&run),
+        "C20" => props::c20::run(&run),
         "C10" => props::c10::run(&run),
         "C11" => props::c11::run(&run),
         "C12" => props::c12::run(&run),
